@@ -63,6 +63,7 @@ CASE_TIMEOUT = 180
 N_MC = {'quick': 520, 'thorough': 5200}
 N_INT = {'quick': 220, 'thorough': 2000}
 N_DER = {'quick': 300, 'thorough': 3000}
+N_HIST = {'quick': 70, 'thorough': 700}
 
 INT_RTOL, INT_ATOL = 1e-9, 1e-11
 
@@ -150,6 +151,10 @@ def cases(seed, tier):
         out.append({'kind': 'mc', 'seed': 4242, 'i': i, 'tier': 'quick', 'directed': 'square'})
     for k in range(6 if tier == 'quick' else 36):
         out.append({'kind': 'seeds', 'seed': 4242, 'i': k, 'tier': 'quick'})
+    for i in range(N_HIST[tier]):
+        out.append({'kind': 'hist', 'seed': seed, 'i': i, 'tier': tier})
+    for k in range(3):
+        out.append({'kind': 'hist', 'seed': 4242, 'i': k, 'tier': 'quick', 'directed': 'reregister'})
     out.append({'kind': 'closed', 'seed': 0, 'i': 0, 'tier': 'quick'})
     out.append({'kind': 'reserved', 'seed': 0, 'i': 0, 'tier': 'quick'})
     out.append({'kind': 'sametype', 'seed': 0, 'i': 0, 'tier': 'quick'})
@@ -301,8 +306,10 @@ def _check_generate_draws_calls(cx, calls, expected_types, N, R):
             cx.viol('draw-table-column-is-not-own-generator-series', pb, names=names)
 
 
-def _series_from(call, table, expected_types, N, R):
-    """series per variable for the reference: closed form for user types; for
+def _series_from(call, table, expected_types, N, R, user_closed=None):
+    """series per variable for the reference: closed form for user types
+    (user_closed: type -> array overrides, for generators registered by a
+    registration history); for
     native types the production of that type's generator (inside the given
     generate_draws call) that the table column carries; None if no production
     of the right generator matches."""
@@ -315,6 +322,9 @@ def _series_from(call, table, expected_types, N, R):
         t = expected_types.get(nm)
         if t is None:
             return None
+        if user_closed is not None and t in user_closed:
+            out[nm] = user_closed[t]
+            continue
         if t in co.USER_TYPES:
             out[nm] = co.user_series(t, N, R)
             continue
@@ -1150,6 +1160,279 @@ def _run_sametype(case, rec):
 
 
 # ---------------------------------------------------------------------------
+# registration histories on ONE Database object
+
+
+def _run_hist(case, rec):
+    """seeded sequence of set_random_number_generators calls on one Database (same names with other generators,
+    disjoint names, a mix, an empty dict, the identical generators again, a refused registration followed by a
+    valid one) interleaved with evaluations (get_value_c, BIOGEME + calculate_likelihood, simulate) under a
+    changing number of draws. After every evaluation: every user generator the spies saw called is the one
+    registered LAST under its type name, that one was called, and the value is the mean over its series.
+    A type that is not part of the most recent registration may either be refused (what the unchanged code
+    does: the registration replaces the set) or be served by the generator registered last under that name;
+    the property text does not choose, so both are accepted and counted."""
+    import pandas as pd
+    import biogeme.database as bdb
+    from biogeme.exceptions import BiogemeError
+    from biogeme.native_draws import RandomNumberGeneratorTuple
+    from ..gen import build, c10_gen as gen
+    from ..oracle import evalast, c10_oracle as co
+    from ..monitors import engine_proxy as ep
+
+    directed = case.get('directed')
+    rng = random.Random(f'c10/hist/{case["seed"]}/{case["i"]}/{directed}')
+    N = rng.randint(2, 8)
+    data = {'x_time': [round(rng.uniform(-2, 2), 3) for _ in range(N)],
+            'Cost': [round(rng.uniform(0.2, 3), 3) for _ in range(N)]}
+    betas = {'mu': [round(rng.uniform(0.2, 0.9), 3), 0], 'B_time': [round(rng.uniform(-1.2, -0.2), 3), 0],
+             'k_fix': [0.6, 1]}
+    db = bdb.Database('hist', pd.DataFrame(data))
+    TYPES = ['MYTYPE', 'DET_A', 'zz_user', 'Tri', 'LOGN_user']
+    NATIVE = ['NORMAL_HALTON2', 'UNIFORM', 'UNIFORMSYM_MLHS', 'NORMAL', 'UNIFORM_HALTON3']
+    gens = {}  # gid -> (type, code, low, span, function object)
+    reg_last = {}  # type name -> gid registered last under that name
+    current = set()  # names of the most recent successful registration
+    reregistered = set()  # names registered at least twice with different generators
+    plan_log = []
+    state = {'code': 10 + rng.randint(0, 5), 'lastR': None, 'fmt': 0}
+    cx = _Ctx(rec, {'history': plan_log, 'data': data, 'betas': betas})
+
+    def new_gen(t):
+        state['code'] += 1
+        gid = len(gens)
+        code, low, span = state['code'], round(rng.uniform(-2, 1), 2), round(rng.uniform(0.5, 2), 2)
+
+        def f(n, r, _c=code, _l=low, _s=span, _gid=gid, _t=t):
+            out = co.coded_series(_c, _l, _s, n, r)
+            PROD.append({'type': _t, 'gid': _gid, 'args': (n, r), 'out': np.array(out, copy=True)})
+            return out
+
+        gens[gid] = (t, code, low, span, f)
+        return gid
+
+    def as_dict(gids):
+        d = {}
+        for g in gids:
+            t, f = gens[g][0], gens[g][4]
+            state['fmt'] += 1
+            d[t] = (f, f'generator {g} for {t}') if state['fmt'] % 2 else RandomNumberGeneratorTuple(f, f'generator {g} for {t}')
+        return d
+
+    def register(kind):
+        """returns False when a harness-side expectation about the registration call itself fails"""
+        if kind == 'first':
+            gids = [new_gen(t) for t in rng.sample(TYPES, rng.randint(1, 3))]
+        elif kind == 'same':
+            names = sorted(current) if current else rng.sample(TYPES, 1)
+            gids = [new_gen(t) for t in rng.sample(names, rng.randint(1, len(names)))]
+        elif kind == 'disjoint':
+            pool = [t for t in TYPES if t not in current] or TYPES
+            gids = [new_gen(t) for t in rng.sample(pool, rng.randint(1, min(2, len(pool))))]
+        elif kind == 'mix':
+            a = rng.sample(sorted(current), 1) if current else []
+            pool = [t for t in TYPES if t not in current and t not in a]
+            gids = [new_gen(t) for t in a + (rng.sample(pool, 1) if pool else [])] or [new_gen(TYPES[0])]
+        elif kind == 'empty':
+            gids = []
+        elif kind == 'identical':
+            gids = [reg_last[t] for t in sorted(current)]
+        elif kind == 'refused_then_valid':
+            bad = as_dict([new_gen(t) for t in rng.sample(TYPES, 1)])
+            reserved = rng.choice(['NORMAL', 'UNIFORM_MLHS_ANTI', 'UNIFORMSYM_HALTON5'])
+            bad[reserved] = (lambda n, r: np.zeros((n, r)), 'reserved')
+            plan_log.append({'register_refused': sorted(bad)})
+            try:
+                db.set_random_number_generators(bad)
+                rec.c('hist_reserved_registration_accepted')  # judged by the 'reserved' case, not here
+                for t in bad:
+                    if t != reserved:
+                        g = [k for k, v in gens.items() if v[4] is (bad[t][0] if isinstance(bad[t], tuple) else bad[t].generator)]
+                        if g:
+                            if t in reg_last and reg_last[t] != g[0]:
+                                reregistered.add(t)
+                            reg_last[t] = g[0]
+                current.clear()
+                current.update(t for t in bad if t != reserved)
+            except ValueError:
+                rec.c('hist_reserved_registration_refused')
+            except BaseException as e:
+                cx.viol(f'history-registration-raises-{type(e).__name__}', str(e)[:300])
+                return False
+            # a refused registration registers nothing; an evaluation in between sees the previous state
+            if rng.random() < 0.5 and current:
+                evaluate()
+                if rec.viol:
+                    return False
+            gids = [new_gen(t) for t in rng.sample(TYPES, rng.randint(1, 2))]
+        else:
+            raise ValueError(kind)
+        d = as_dict(gids)
+        plan_log.append({'register': kind, 'types': {gens[g][0]: f'gen{g}(code {gens[g][1]})' for g in gids}})
+        try:
+            db.set_random_number_generators(d)
+        except BaseException as e:
+            cx.viol(f'history-registration-raises-{type(e).__name__}', f'{kind}: {str(e)[:300]}')
+            return False
+        for g in gids:
+            t = gens[g][0]
+            if t in reg_last and reg_last[t] != g:
+                reregistered.add(t)
+            reg_last[t] = g
+        current.clear()
+        current.update(gens[g][0] for g in gids)
+        rec.c('hist_reg_' + kind)
+        return True
+
+    def evaluate(force_types=None):
+        R = rng.choice([r for r in (1, 2, 3, 7, 10, 50) if r != state['lastR']])
+        if state['lastR'] is not None:
+            rec.c('hist_number_of_draws_changed')
+        state['lastR'] = R
+        stale = sorted(t for t in reg_last if t not in current)
+        use = []
+        if force_types:
+            use = list(force_types)
+        else:
+            cur = sorted(current)
+            k = rng.randint(1, 3)
+            # prefer types whose generator has been replaced
+            pref = [t for t in cur if t in reregistered]
+            if pref:
+                use.append(rng.choice(pref))
+            while len(use) < k:
+                c = rng.random()
+                if c < 0.55 and cur:
+                    t = rng.choice(cur)
+                elif c < 0.7 and stale:
+                    t = rng.choice(stale)
+                else:
+                    t = rng.choice(NATIVE)
+                if t not in use:
+                    use.append(t)
+                elif c >= 0.7 or not cur:
+                    break
+        if not use:
+            use = [rng.choice(NATIVE)]
+        has_stale = any(t in stale for t in use)
+        names = rng.sample(gen.DRAW_NAMES, len(use))
+        dvars = [[n, t] for n, t in zip(names, use)]
+        types = dict(dvars)
+        u = ['mul', ['beta', 'B_time'], ['var', 'x_time']]
+        for j, (n, t) in enumerate(dvars):
+            d = ['draws', n, t]
+            term = [['mul', ['beta', 'mu'], d], ['mul', ['var', 'Cost'], ['sin', d]], ['mul', ['beta', 'k_fix'], ['mul', d, ['var', 'x_time']]]][j % 3]
+            u = [rng.choice(['add', 'sub']), u, term]
+        ast = ['mc', ['exp', ['mul', ['num', 0.3], u]]] if rng.random() < 0.5 else ['log', ['mc', ['div', ['num', 1.0], ['add', ['num', 1.0], ['exp', ['neg', u]]]]]]
+        spec = {'ast': ast, 'shared': [], 'data': data, 'betas': betas}
+        mode = rng.choice(['value', 'value', 'likelihood', 'likelihood', 'simulate'])
+        plan_log.append({'evaluate': mode, 'R': R, 'draw_variables': dvars})
+        expr, _ = build.build(spec)
+        PROD.clear(); GD_CALLS.clear(); ep.reset()
+        bv = _bv(spec)
+        val = sim = None
+        try:
+            if mode == 'value':
+                val = np.asarray(expr.get_value_c(database=db, number_of_draws=R, prepare_ids=True), dtype=float)
+                kind = 'one'
+            else:
+                bg = _mk_biogeme(expr, db, R=R, seed=rng.choice([0, 5, 77]), threads=rng.choice([1, 2, 3]))
+                free = list(bg.free_beta_names)
+                x = [round(bv[n] + rng.uniform(-0.1, 0.1), 4) for n in free]
+                bv.update(dict(zip(free, x)))
+                if mode == 'likelihood':
+                    val = bg.calculate_likelihood(x, scaled=False)
+                else:
+                    sim = bg.simulate(dict(zip(free, x)))
+                    val = sim['log_like'].to_numpy()
+                kind = 'biogeme'
+        except BiogemeError as e:
+            if has_stale and 'Unknown type of draws' in str(e):
+                rec.c('hist_stale_type_refused')
+                rec.c('hist_stale_type_evaluations')
+                return
+            cx.viol('history-evaluation-raises-BiogemeError', f'{mode}: {str(e)[:400]}')
+            return
+        except BaseException as e:
+            cx.viol(f'history-evaluation-raises-{type(e).__name__}', f'{mode}: {str(e)[:400]}')
+            return
+        if has_stale:
+            rec.c('hist_stale_type_served_by_generator_registered_last_under_the_name')
+            rec.c('hist_stale_type_evaluations')
+        calls = list(GD_CALLS)
+        prods = list(PROD)
+        ho = _handover(kind)
+        call = _table_call(calls, ho['table'])
+        if call is None:
+            cx.viol('engine-given-other-table-than-generated', f'history ({mode}): table handed over is not a generate_draws result')
+            return
+        # who was called?
+        rec.ev()
+        rec.c('hist_generator_identity_checked')
+        for p in prods:
+            if 'gid' in p and reg_last.get(p['type']) != p['gid']:
+                cx.viol('history-generator-called-is-not-the-one-registered-last-for-its-type',
+                        f'type {p["type"]}: generator gen{p["gid"]} was called; registered last under that name: gen{reg_last.get(p["type"])}')
+                break
+        for t in use:
+            if t in reg_last:
+                for c in calls:
+                    if not any(p.get('gid') == reg_last[t] for p in c['prods']):
+                        cx.viol('history-generator-registered-last-was-not-called',
+                                f'type {t}: gen{reg_last[t]} (registered last) was not asked for a series during generate_draws')
+                        break
+        _check_generate_draws_calls(cx, calls, types, N, R)
+        closed = {t: co.coded_series(gens[reg_last[t]][1], gens[reg_last[t]][2], gens[reg_last[t]][3], N, R)
+                  for t in use if t in reg_last}
+        ser = _series_from(call, ho['table'], types, N, R, user_closed=closed)
+        if ser is None:
+            if not rec.viol:
+                cx.viol('generate_draws-no-series-for-variable', 'history: no production of the declared generator for some variable')
+            return
+        j = evalast.judge(ast, data, bv, [], draws=ser)
+        if not j['ok']:
+            rec.c('hist_rejected_' + j['reason'].split(':')[0])
+            return
+        ref = j['value']
+        rec.ev()
+        rec.c('hist_evaluations_compared')
+        rec.c('hist_eval_' + mode)
+        if any(t in reregistered for t in use):
+            rec.c('hist_evaluations_after_reregistration_of_same_type')
+        state['compared'] = state.get('compared', 0) + 1
+        target = ref.sum() if mode == 'likelihood' else ref
+        if not close(val, target, 1e-9, 1e-11 * max(1, N)):
+            cx.viol('history-value-differs-from-mean-over-series-of-generator-registered-last',
+                    f'{mode}, R={R}, variables {dvars}: real code {np.asarray(val).tolist()} reference {np.asarray(target).tolist()}')
+
+    # ---- the history
+    if directed == 'reregister':
+        kinds = ['same', 'same'][: 1 + case['i'] % 2] + (['identical'] if case['i'] == 2 else [])
+    else:
+        L = rng.randint(2, 6)
+        pool = ['same', 'same', 'disjoint', 'mix', 'empty', 'identical', 'refused_then_valid']
+        kinds = [rng.choice(pool) for _ in range(L - 1)]
+    if not register('first'):
+        return
+    if rng.random() < 0.8 or directed:
+        evaluate()
+    for kd in kinds:
+        if rec.viol:
+            return
+        if not register(kd):
+            return
+        for _ in range(rng.choice([1, 1, 2])):
+            if rec.viol:
+                return
+            evaluate()
+    if directed:
+        rec.c('hist_directed_' + directed)
+    if state.get('compared', 0) >= 1 and len(kinds) >= 1:
+        rec.key(['hist', plan_log, data, betas])
+    rec.sample({'kind': 'registration history on one Database', 'steps': plan_log, 'rows': N})
+
+
+# ---------------------------------------------------------------------------
 
 
 def run_case(case):
@@ -1158,6 +1441,7 @@ def run_case(case):
     {
         'mc': _run_mc, 'int': _run_int, 'der': _run_der, 'seeds': _run_seeds, 'closed': _run_closed,
         'reserved': _run_reserved, 'sametype': _run_sametype, 'derive_linutil': _run_derive_linutil,
+        'hist': _run_hist,
     }[kind](case, rec)
     return rec.out()
 
@@ -1194,7 +1478,11 @@ def finalize(cov, tier):
             'int_mode_two', 'int_mode_two_same_rv', 'der_compared', 'der_decoded_compared', 'der_target_free',
             'der_target_fixed', 'der_target_var', 'der_nonzero_derivative', 'der_engine_central_difference_compared',
             'bg_derive_likelihood_compared', 'reserved_names_checked', 'user_generators_both_formats',
-            'sametype_checked', 'directed_derive_linutil']
+            'sametype_checked', 'directed_derive_linutil', 'hist_evaluations_compared',
+            'hist_evaluations_after_reregistration_of_same_type', 'hist_eval_value', 'hist_eval_likelihood',
+            'hist_eval_simulate', 'hist_reg_same', 'hist_reg_disjoint', 'hist_reg_mix', 'hist_reg_empty',
+            'hist_reg_identical', 'hist_reg_refused_then_valid', 'hist_number_of_draws_changed',
+            'hist_stale_type_evaluations', 'hist_directed_reregister']
     for k in need:
         if cov.get(k, 0) == 0:
             out.append(f'monitor never evaluated: {k}')
